@@ -240,7 +240,7 @@ func (b *bundle) kmTxs(s *kmSpec) []txT {
 			}
 			sp.Signatures = append(sp.Signatures, *sig)
 		}
-		out = append(out, txT{Name: "km-update-policy", Signer: txSigner, Method: secrets.MethodUpdatePolicy, Body: sp, FeeAmt: 1})
+		out = append(out, txT{Name: "km-update-policy", Signer: txSigner, Method: secrets.MethodUpdatePolicy, Body: sp})
 	}
 	return out
 }
@@ -273,4 +273,29 @@ func kmLetters() []letter {
 		ls = append(ls, letter{Name: s.String(), KM: &s})
 	}
 	return ls
+}
+
+// kmMenu: the single-transaction key manager letters as transaction templates (built from the state
+// at block time), for the pre-state x transaction products of C08.
+func (w *world) kmMenu() []txT {
+	var ts []txT
+	for _, l := range kmLetters() {
+		s := *l.KM
+		if s.Kind == "reg" && len(s.Who) != 1 {
+			continue
+		}
+		var signer signature.Signer
+		switch {
+		case s.Kind == "policy" && s.Var == "by-e1":
+			signer = w.keys.Entities[1]
+		case s.Kind == "policy":
+			signer = w.keys.Entities[0]
+		case s.Var == "by-entity":
+			signer = w.keys.Entities[0]
+		default:
+			signer = w.keys.Nodes[s.Who[0]].NodeSigner
+		}
+		ts = append(ts, txT{Name: s.String(), Signer: signer, Dyn: func(b *bundle) txT { return b.kmTxs(&s)[0] }})
+	}
+	return ts
 }
